@@ -375,7 +375,12 @@ func observe(items []Item, content *hcl.BodyContent, diags hcl.Diagnostics) (Ste
 	set := map[string]bool{}
 	for _, d := range diags {
 		if d.Severity == hcl.DiagError {
-			set[classify(d)] = true
+			k := classify(d)
+			if strings.HasPrefix(k, "other:") {
+				// not a verdict: the replayer's table of diagnostic kinds no longer matches the library
+				return s, "ORACLE-DRIFT: unrecognised diagnostic " + k
+			}
+			set[k] = true
 		}
 	}
 	for k := range set {
@@ -540,6 +545,10 @@ func Handle(c *core.Check, st core.State) {
 		if panicked {
 			bad("panic", fmt.Sprint(rec))
 			continue
+		}
+		if strings.Contains(anomaly, "ORACLE-DRIFT") {
+			c.Broken("%s body, %s: %s (the diagnostic classification table of harness/c04 needs updating)", im.name, describe(v), anomaly)
+			return
 		}
 		if anomaly != "" {
 			bad("anomaly", anomaly)
